@@ -506,9 +506,12 @@ def process_keyqueue(codes: Sequence[int], more_available: bool) -> tuple[list[s
         if not codes[1:] and more_available:
             raise MoreInputRequired()
         if codes[1:] and codes[1] < 256:
-            db = chr(code) + chr(codes[1])
+            db = bytes((code, codes[1]))
             if within_double_byte(db, 0, 1):
-                return [db], codes[2:]
+                try:
+                    return [db.decode(urwid.util.get_encoding())], codes[2:]
+                except UnicodeDecodeError:
+                    pass
 
     if em == "utf8" and 127 < code < 256:
         if code & 0xE0 == 0xC0:  # 2-byte form
